@@ -24,6 +24,8 @@ TOPO = {
     'tri1heron': ('MeshTri1', [[0.0, 0.525, -0.4125], [0.0, 0.7, 0.7]], [[0], [1], [2]]),
     # two Heronian triangles (13, 14, 15) sharing the edge of length 14, same rational rotation and scale
     'tri2heron': ('MeshTri1', [[-0.4125, 0.0, 0.525, 0.9375], [0.7, 0.0, 0.7, 0.0]], [[0, 1], [1, 2], [2, 3]]),
+    # the same pair without the rotation: dyadic coordinates (exact under power-of-two scaling)
+    'tri2heron0': ('MeshTri1', [[0.3125, 0.0, 0.875, 0.5625], [0.75, 0.0, 0.0, -0.75]], [[0, 1], [1, 2], [2, 3]]),
     'tri2': ('MeshTri1', [[0.0, 1.0, 0.09375, 1.125], [0.0, 0.0625, 0.90625, 1.0625]], [[0, 1], [1, 2], [2, 3]]),
     'tri2perm': ('MeshTri1', [[1.125, 0.09375, 0.0, 1.0], [1.0625, 0.90625, 0.0, 0.0625]], [[3, 1], [2, 3], [1, 0]]),
     'tri3fan': ('MeshTri1', [[0.0, 1.0, 0.09375, 1.125, -0.84375], [0.0, 0.0625, 0.90625, 1.0625, 0.5625]],
